@@ -20,3 +20,9 @@ func VerifEnumerate(minBound, maxBound int64, precisionStep uint) [][]byte {
 
 // VerifIncrementBytes exposes incrementBytes.
 func VerifIncrementBytes(in []byte) []byte { return incrementBytes(in) }
+
+// VerifEnumerateFilter is VerifEnumerate with the caller's filter (the role the
+// dictionary's Contains plays in NewNumericRangeSearcher).
+func VerifEnumerateFilter(minBound, maxBound int64, precisionStep uint, filter func([]byte) bool) [][]byte {
+	return splitInt64Range(minBound, maxBound, precisionStep).Enumerate(filter)
+}
